@@ -10,7 +10,43 @@ use std::collections::HashMap;
 use std::marker::PhantomData;
 use vref::chacha::{Layout, Stream};
 
-#[derive(Clone, PartialEq, Eq, Hash, Debug)]
+/// When set, two states that differ only in the dead part of the block buffer `out` are merged
+/// (dedup key only: every stored state keeps the real bytes of the first execution that reached it,
+/// so every explored transition is a real execution from a really reachable state).
+pub static CANONICAL_KEY: std::sync::atomic::AtomicBool = std::sync::atomic::AtomicBool::new(false);
+
+fn key_out(s: &Snap) -> [u8; 64] {
+    let mut o = s.out;
+    if CANONICAL_KEY.load(std::sync::atomic::Ordering::Relaxed) {
+        // `out` is read only at out[64-have..] and every path that raises `have` rewrites all 64
+        // bytes first, so the rest is dead in the current implementation
+        let live_from = if s.have <= 0 { 64 } else { 64 - s.have as usize };
+        for b in o[..live_from].iter_mut() {
+            *b = 0;
+        }
+    }
+    o
+}
+impl PartialEq for St {
+    fn eq(&self, o: &St) -> bool {
+        self.pos == o.pos && self.lost_applied == o.lost_applied && self.snap.have == o.snap.have && self.snap.len == o.snap.len && self.snap.fresh == o.snap.fresh && self.snap.d0 == o.snap.d0 && self.snap.d1 == o.snap.d1 && key_out(&self.snap) == key_out(&o.snap)
+    }
+}
+impl Eq for St {}
+impl std::hash::Hash for St {
+    fn hash<H: std::hash::Hasher>(&self, h: &mut H) {
+        self.pos.hash(h);
+        self.lost_applied.hash(h);
+        self.snap.have.hash(h);
+        self.snap.len.hash(h);
+        self.snap.fresh.hash(h);
+        self.snap.d0.hash(h);
+        self.snap.d1.hash(h);
+        key_out(&self.snap).hash(h);
+    }
+}
+
+#[derive(Clone, Debug)]
 pub struct St {
     pub snap: Snap,
     /// model: absolute byte position; None = unspecified (after a failed seek)
@@ -83,15 +119,7 @@ impl<K: Kind> ChSys<K> {
         }
         out
     }
-    fn canon(&self, mut s: Snap) -> Snap {
-        if self.canonical {
-            // `out` is read only at out[64-have..] and every path that raises `have` rewrites all
-            // 64 bytes first, so the rest is dead.
-            let live_from = if s.have <= 0 { 64 } else { 64 - s.have as usize };
-            for b in s.out[..live_from].iter_mut() {
-                *b = 0;
-            }
-        }
+    fn canon(&self, s: Snap) -> Snap {
         s
     }
     fn in_window(&self, p: u128) -> bool {
@@ -346,12 +374,36 @@ impl<K: Kind> Sys for ChSys<K> {
         if !self.key_intact(&c) {
             return self.bad("key-modified", format!("{:?} changed key words of the state", a));
         }
+        // The words of `d` that hold the nonce / stream id never change in a correct history. If they
+        // did, nothing is flagged on that ground alone: the history is continued by seek(0); apply(64)
+        // on a copy and only an observable difference from block 0 is a violation (it also keeps a
+        // drifting nonce from making the state space infinite).
+        {
+            let sn = K::snap(&c);
+            let i = &self.inits[0].snap;
+            let drift = sn.d1 != i.d1 || (K::LAYOUT == Layout::Ietf && (sn.d0 >> 32) != (i.d0 >> 32));
+            if drift {
+                let mut probe = K::new(&self.key, &self.nonce);
+                K::restore(&mut probe, &sn);
+                let mut buf = [0u8; 64];
+                let r = guarded(|| {
+                    K::try_seek(&mut probe, IntTy::U64, 0, false).is_ok() && probe.try_apply_keystream(&mut buf).is_ok()
+                });
+                let b0 = self.block(0);
+                if r != Ok(true) || buf != b0 {
+                    return self.bad("keystream-mismatch", format!("after {:?} (position {:?}), seek(0); apply(64) does not give block 0 of this key/nonce: got {}.. want {}.. (nonce / stream-id words of the state changed)", a, next_pos, vref::hex(&buf[..8]), vref::hex(&b0[..8])));
+                }
+            }
+        }
         let lost_applied = next_pos.is_none() && (s.lost_applied || matches!(a, Act::Apply(_)));
         Step::Next(St { snap: self.canon(K::snap(&c)), pos: next_pos, lost_applied })
     }
 }
 
 pub struct Cfg {
+    pub max_states: usize,
+    pub max_wall_s: u64,
+    pub stateright: u8,
     pub w: u64,
     pub canonical: bool,
     pub c11: bool,
@@ -360,15 +412,42 @@ pub struct Cfg {
 }
 
 fn run_kind<K: Kind>(rep: &mut Report, cfg: &Cfg) {
-    let sys = ChSys::<K>::new(key_pattern(2), nonce_pattern(2, K::NONCE_LEN), cfg.w, cfg.canonical, cfg.c11, cfg.dense_apply);
+    let sys = std::sync::Arc::new(ChSys::<K>::new(key_pattern(2), nonce_pattern(2, K::NONCE_LEN), cfg.w, cfg.canonical, cfg.c11, cfg.dense_apply));
+    CANONICAL_KEY.store(cfg.canonical, std::sync::atomic::Ordering::SeqCst);
     let t0 = std::time::Instant::now();
-    let out = bfs(&sys, cfg.max_depth, 20_000_000);
+    let out = bfs_capped(&*sys, cfg.max_depth, cfg.max_states, std::time::Duration::from_secs(cfg.max_wall_s));
+    CANONICAL_KEY.store(false, std::sync::atomic::Ordering::SeqCst);
     let secs = t0.elapsed().as_secs_f64();
+    let mut sr = serde_json::Value::Null;
+    if out.capped.is_none() && out.bad.is_empty() && (cfg.stateright == 2 || (cfg.stateright == 1 && (K::NAME == "Ietf" || K::NAME == "ChaCha20"))) {
+        // independent engine + determinism, always with the exact key: stateright with 16 worker
+        // threads (thorough: also with 1) against the own BFS on the same system (quick: a 2-block
+        // window system, so that it stays cheap)
+        let (xsys, mine_states, bad_mine) = if cfg.canonical {
+            let x = std::sync::Arc::new(ChSys::<K>::new(key_pattern(2), nonce_pattern(2, K::NONCE_LEN), 2, false, cfg.c11, 64 * 3));
+            let o = bfs(&*x, cfg.max_depth, 20_000_000);
+            let b: u64 = o.bad.iter().map(|b| b.count).sum();
+            (x, o.unique_states, b)
+        } else {
+            (sys.clone(), out.unique_states, out.bad.iter().map(|b| b.count).sum())
+        };
+        let (n16, b16) = crate::srcheck::explore(xsys.clone(), 16);
+        let (n1, b1) = if cfg.stateright == 2 { crate::srcheck::explore(xsys.clone(), 1) } else { (n16, b16) };
+        sr = json!({"system": if cfg.canonical { "2-block windows, exact key" } else { "same system, exact key" }, "own_bfs_unique_states": mine_states, "unique_states_1_thread": n1, "unique_states_16_threads": n16, "violating_transitions": b1});
+        if n1 != mine_states || n16 != mine_states || b1 != bad_mine || b16 != bad_mine {
+            rep.violation("chacha:machinery:explorer-disagreement", format!("{}: own BFS found {} states / {} violating transitions, stateright {} / {} (1 thread) and {} / {} (16 threads)", K::NAME, mine_states, bad_mine, n1, b1, n16, b16), json!({}));
+        }
+    }
     rep.add("states", out.unique_states as u64);
     rep.add("transitions", out.transitions);
     rep.add("cut_states", out.cut_states as u64);
     if !out.fixpoint {
         rep.exhaustive = false;
+    }
+    if let Some(c) = &out.capped {
+        let mut arr = rep.extra.get("capped").cloned().unwrap_or(json!([]));
+        arr.as_array_mut().unwrap().push(json!(format!("{}: {}", K::NAME, c)));
+        rep.set("capped", arr);
     }
     let classes: serde_json::Map<String, Value> = {
         let mut v: Vec<_> = out.classes.iter().collect();
@@ -377,9 +456,9 @@ fn run_kind<K: Kind>(rep: &mut Report, cfg: &Cfg) {
     };
     let per = json!({
         "kind": K::NAME, "states": out.unique_states, "transitions": out.transitions, "cut_states": out.cut_states,
-        "bfs_depth": out.max_depth, "fixpoint": out.fixpoint, "menu_size": sys.menu.len(), "init_states": sys.inits.len(),
+        "bfs_depth": out.max_depth, "fixpoint": out.fixpoint, "capped": out.capped, "menu_size": sys.menu.len(), "init_states": sys.inits.len(),
         "windows": sys.windows.iter().map(|(a,b)| format!("[{},{})", a, b)).collect::<Vec<_>>(),
-        "outcome_classes": Value::Object(classes), "wall_s": secs,
+        "outcome_classes": Value::Object(classes), "wall_s": secs, "stateright_crosscheck": sr,
     });
     let mut arr = rep.extra.get("per_kind").cloned().unwrap_or(json!([]));
     arr.as_array_mut().unwrap().push(per);
@@ -398,10 +477,10 @@ pub fn run(prop: &str, tier: &str, config: &str) -> Report {
     let mut rep = Report::new(prop, tier, config);
     let c11 = prop == "C11";
     let thorough = tier == "thorough";
-    let w: u64 = std::env::var("VH_W").ok().and_then(|s| s.parse().ok()).unwrap_or(if thorough { 9 } else { 5 });
-    let cfg = Cfg { w, canonical: !thorough, c11, dense_apply: (64 * (w + 1)) as usize, max_depth: 64 };
+    let w: u64 = std::env::var("VH_W").ok().and_then(|s| s.parse().ok()).unwrap_or(9);
+    let cfg = Cfg { max_states: if thorough { 4_000_000 } else { 400_000 }, max_wall_s: if thorough { 1800 } else { 90 }, stateright: if thorough { 2 } else { 1 }, w, canonical: !thorough, c11, dense_apply: (64 * (w + 1)) as usize, max_depth: 64 };
     rep.rule = format!("explicit-state BFS on the real cipher object; state key = (have,len,fresh,out[64],all four d words via get_stream_param,model position){}; menu identical in every state: try_seek to every byte position of every window through u64 plus a sparse set through u8,u16,u32,u128,usize,i32 (incl. -1, type maxima, beyond-the-end values), try_apply_keystream(n) for every n in 0..={}, try_current_pos through all 7 integer types; windows of {} blocks at 0, at 2^38 bytes (IETF end / low-counter-word carry) and at 2^64 bytes{}; states whose position leaves the windows are kept but not expanded; run to fixpoint",
-        if cfg.canonical { " with the dead part of `out` zeroed (canonical key)" } else { " (exact key)" }, cfg.dense_apply, w,
+        if cfg.canonical { "; dedup key ignores the dead part of `out` (each stored state keeps the real bytes of the first execution reaching it)" } else { " (exact key)" }, cfg.dense_apply, w,
         if c11 { "; C11 adds dense seeks around the IETF end, oversized requests, and start states after 2^64-k blocks (k=0..=w) entered through the public fields" } else { "" });
     crate::for_each_kind!(run_kind, &mut rep, &cfg);
     let st = rep.extra.get("states").and_then(|v| v.as_u64()).unwrap_or(0);
